@@ -6,7 +6,7 @@
     fields, sequences, tagged groups and whole elements in the order in which they were parsed. *)
 From Coq Require Import Ascii String List Bool NArith ZArith Lia Sorting.Sorted Permutation.
 From A2L Require Import Base.StableSort Text.Escape Text.IntText Lex.Tokenizer Gram.Spec A2ml.Types Gram.PState Gram.Parser
-  Gram.Writer Gram.TokWriter Proofs.CursorProofs Proofs.StrictWholeProofs Proofs.SeqMonoProofs Proofs.MergeProofs Proofs.LayoutProofs Proofs.RoundTripProofs Proofs.RoundTripOrderProofs Proofs.ParseOrderProofs.
+  Gram.Writer Gram.TokWriter Proofs.CursorProofs Proofs.StrictWholeProofs Proofs.SeqMonoProofs Proofs.MergeProofs Proofs.LayoutProofs Proofs.RoundTripProofs Proofs.RoundTripOrderProofs Proofs.LineOffsetProofs Proofs.ParseOrderProofs.
 Import ListNotations.
 Local Open Scope N_scope.
 
@@ -395,7 +395,8 @@ Definition reads_as (ftab : list fentry) (t : token) (w : shape) : Prop :=
 
 Lemma with_offset_inv {A} (m : M A) (k : A -> N -> value) s v s' : csim m ->
   (x <-- m ;; off <-- get_line_offset ;; ret (k x off)) s = (ROk v, s') -> ps_log s' = ps_log s ->
-  exists a s1 off, m s = (ROk a, s1) /\ ps_log s1 = ps_log s /\ v = k a off /\ (Inv s1 -> s' = s1).
+  exists a s1 off, m s = (ROk a, s1) /\ ps_log s1 = ps_log s /\ v = k a off /\ (Inv s1 -> s' = s1) /\
+                   get_line_offset s1 = (ROk off, s').
 Proof.
   intros Hm E L. apply bind_clean_inv in E; [|exact Hm|intro; cs|exact L]. destruct E as (a & s1 & E1 & L1 & E2 & _).
   destruct (bind_ok_inv _ _ _ _ _ E2) as (off & s2 & G & E3). injection E3 as <- <-.
@@ -409,47 +410,67 @@ Section Fields.
   Variable c : ctx.
   Hypothesis Hc : c_fileid c = O.
 
-  Lemma scalar_trace ty s v s' : simple_ty ty = true -> Inv s -> ps_ftab s = ftab ->
+  Definition nomax (ty : fty) : bool := match ty with FStringMax _ => false | _ => true end.
+
+  Lemma scalar_trace ty s v s' : simple_ty ty = true -> nomax ty = true -> Inv s -> first_ok s -> ps_ftab s = ftab ->
     parse_scalar_field S rec ty c s = (ROk v, s') -> ps_log s' = ps_log s ->
-    exists t r w, ps_after s = t :: r /\ adv [t] s s' /\ scalar_toks ftab ty v = [w] /\ reads_as ftab t w.
+    exists t r w o, ps_after s = t :: r /\ adv [t] s s' /\ scalar_toks ftab ty v = [w] /\ reads_as ftab t w /\
+      scalar_offs ty v = [o] /\ (ps_after s' <> [] -> match o with Some off => off = tk_line t - prevl s | None => True end).
   Proof.
-    intros Hsim I Hf E L. destruct ty; try discriminate; cbn [parse_scalar_field] in E.
+    intros Hsim Hnm I Hfo Hf E L.
+    assert (Hoff : forall tk s1 off, adv [tk] s s1 -> get_line_offset s1 = (ROk off, s') -> s' = s1 ->
+                   ps_after s' <> [] -> off = tk_line tk - prevl s).
+    { intros tk s1 off A G -> Hne. pose proof (glo_after [] tk s s1 I Hfo A Hne) as G2. rewrite G in G2. injection G2 as ->. reflexivity. }
+    destruct ty; try discriminate; cbn [parse_scalar_field] in E.
     - destruct (with_offset_inv (get_integer t c) (fun r off => VScalar (SInt (fst r) (snd r)) off) _ _ _ ltac:(cs) E L)
-        as ([z hex] & s1 & off & E1 & _ & -> & Hs).
+        as ([z hex] & s1 & off & E1 & _ & -> & Hs & G).
       destruct (get_integer_inv c Hc _ _ _ _ I E1) as (tk & r & Ea & Ht & Hx & A).
-      rewrite (Hs (adv_inv _ _ _ I A)). exists tk, r, (TNumber, add_integer_text t z hex).
-      refine (conj Ea (conj A (conj eq_refl (conj Ht _)))). left. exists t, z, hex. auto.
+      pose proof (Hs (adv_inv _ _ _ I A)) as Es. exists tk, r, (TNumber, add_integer_text t z hex), (Some off).
+      refine (conj Ea (conj _ (conj eq_refl (conj (conj Ht _) (conj eq_refl _))))).
+      + rewrite Es. exact A.
+      + left. exists t, z, hex. auto.
+      + exact (Hoff tk s1 off A G Es).
     - destruct (with_offset_inv (get_double c) (fun v off => VScalar (SFloat v) off) _ _ _ ltac:(cs) E L)
-        as (bits & s1 & off & E1 & _ & -> & Hs).
+        as (bits & s1 & off & E1 & _ & -> & Hs & G).
       destruct (get_double_inv c Hc ftab _ _ _ I Hf E1) as (tk & r & Ea & Ht & Hx & A).
-      rewrite (Hs (adv_inv _ _ _ I A)). exists tk, r, (TNumber, float_text ftab bits).
-      refine (conj Ea (conj A (conj eq_refl (conj Ht _)))). right. exists bits. auto.
+      pose proof (Hs (adv_inv _ _ _ I A)) as Es. exists tk, r, (TNumber, float_text ftab bits), (Some off).
+      refine (conj Ea (conj _ (conj eq_refl (conj (conj Ht _) (conj eq_refl _))))).
+      + rewrite Es. exact A.
+      + right. exists bits. auto.
+      + exact (Hoff tk s1 off A G Es).
     - destruct (with_offset_inv (get_float c) (fun v off => VScalar (SFloat v) off) _ _ _ ltac:(cs) E L)
-        as (bits & s1 & off & E1 & _ & -> & Hs).
+        as (bits & s1 & off & E1 & _ & -> & Hs & G).
       destruct (get_float_inv c Hc ftab _ _ _ I Hf E1) as (tk & r & Ea & Ht & Hx & A).
-      rewrite (Hs (adv_inv _ _ _ I A)). exists tk, r, (TNumber, float_text ftab bits).
-      refine (conj Ea (conj A (conj eq_refl (conj Ht _)))). right. exists bits. auto.
+      pose proof (Hs (adv_inv _ _ _ I A)) as Es. exists tk, r, (TNumber, float_text ftab bits), (Some off).
+      refine (conj Ea (conj _ (conj eq_refl (conj (conj Ht _) (conj eq_refl _))))).
+      + rewrite Es. exact A.
+      + right. exists bits. auto.
+      + exact (Hoff tk s1 off A G Es).
     - destruct (with_offset_inv (get_identifier c) (fun v off => VScalar (SText v) off) _ _ _ ltac:(cs) E L)
-        as (x & s1 & off & E1 & _ & -> & Hs).
+        as (x & s1 & off & E1 & _ & -> & Hs & G).
       destruct (get_identifier_inv c Hc _ _ _ I E1) as (tk & r & Ea & Ht & Hx & A).
-      rewrite (Hs (adv_inv _ _ _ I A)). exists tk, r, (TIdentifier, x).
-      refine (conj Ea (conj A (conj eq_refl (conj Ht _)))). cbn. congruence.
+      pose proof (Hs (adv_inv _ _ _ I A)) as Es. exists tk, r, (TIdentifier, x), (Some off).
+      refine (conj Ea (conj _ (conj eq_refl (conj (conj Ht _) (conj eq_refl _))))).
+      + rewrite Es. exact A.
+      + cbn. congruence.
+      + exact (Hoff tk s1 off A G Es).
     - destruct (with_offset_inv (get_string c) (fun v off => VScalar (SText v) off) _ _ _ ltac:(cs) E L)
-        as (x & s1 & off & E1 & L1 & -> & Hs).
+        as (x & s1 & off & E1 & L1 & -> & Hs & G).
       destruct (get_string_inv c Hc _ _ _ I E1 L1) as (tk & r & Ea & Ht & Hx & A).
-      rewrite (Hs (adv_inv _ _ _ I A)). exists tk, r, (TString, quoted x).
-      refine (conj Ea (conj A (conj eq_refl (conj Ht _)))). cbn. congruence.
-    - apply bind_clean_inv in E; [|cs|intro; cs|exact L]. destruct E as (x & s1 & E1 & L1 & E2 & _).
-      injection E2 as <- <-.
-      destruct (get_string_maxlen_inv c Hc _ _ _ _ I E1 L1) as (tk & r & Ea & Ht & Hx & A).
-      exists tk, r, (TString, quoted x).
-      refine (conj Ea (conj A (conj eq_refl (conj Ht _)))). cbn. congruence.
+      pose proof (Hs (adv_inv _ _ _ I A)) as Es. exists tk, r, (TString, quoted x), (Some off).
+      refine (conj Ea (conj _ (conj eq_refl (conj (conj Ht _) (conj eq_refl _))))).
+      + rewrite Es. exact A.
+      + cbn. congruence.
+      + exact (Hoff tk s1 off A G Es).
     - destruct (lookup_ty S e) as [td|]; [|discriminate].
       destruct (with_offset_inv (parse_enum td c) (fun v off => VScalar (SText v) off) _ _ _ ltac:(cs) E L)
-        as (x & s1 & off & E1 & L1 & -> & Hs).
+        as (x & s1 & off & E1 & L1 & -> & Hs & G).
       destruct (parse_enum_inv c Hc _ _ _ _ I E1 L1) as (tk & r & Ea & Ht & Hx & A).
-      rewrite (Hs (adv_inv _ _ _ I A)). exists tk, r, (TIdentifier, x).
-      refine (conj Ea (conj A (conj eq_refl (conj Ht _)))). cbn. congruence.
+      pose proof (Hs (adv_inv _ _ _ I A)) as Es. exists tk, r, (TIdentifier, x), (Some off).
+      refine (conj Ea (conj _ (conj eq_refl (conj (conj Ht _) (conj eq_refl _))))).
+      + rewrite Es. exact A.
+      + cbn. congruence.
+      + exact (Hoff tk s1 off A G Es).
   Qed.
 End Fields.
 
@@ -536,6 +557,36 @@ Section NextTag.
         * assert (HnI : tk_type t <> TIdentifier) by (intro Z; apply ttype_eqb_eq in Z; congruence).
           right; right. destruct (next_tag_none c Hc s t r I Ea HnB HnI) as (s2 & X & A). rewrite X in E. injection E as <- <-. auto.
   Qed.
+
+  (* the offset that comes with the tag *)
+  Lemma next_tag_block_off s tB tI r off s1 : Inv s -> first_ok s -> ps_after s = tB :: tI :: r ->
+    tk_type tB = TBegin -> tk_type tI = TIdentifier ->
+    get_next_tag_or_comment c s = (ROk (BCBlock tI true off), s1) -> off = tk_line tB - prevl s.
+  Proof.
+    intros I Hfo Ha HB HI E. unfold get_next_tag_or_comment, get_tokenpos, peek_token in E. unfold bindM at 1 in E. unfold bindM at 1 in E.
+    rewrite Ha, HB in E. cbn [ttype_eqb] in E.
+    destruct (get_token_fine c s tB (tI :: r) I Ha) as (s2 & E1 & A1). rewrite (bind_ok _ _ _ _ _ E1) in E.
+    assert (I2 : Inv s2) by (eapply adv_inv; eassumption).
+    assert (Ha2 : ps_after s2 = tI :: r).
+    { pose proof (adv_after _ _ _ A1) as Q. rewrite Ha in Q. cbn [app] in Q. injection Q as Q. symmetry. exact Q. }
+    assert (G : get_line_offset s2 = (ROk (tk_line tB - prevl s), s2)).
+    { apply (glo_after [] tB s s2 I Hfo A1). rewrite Ha2. discriminate. }
+    rewrite (bind_ok _ _ _ _ _ G) in E.
+    destruct (expect_fine c TIdentifier s2 tI r I2 Ha2 HI) as (s3 & E2 & A2).
+    rewrite (bind_ok _ _ _ _ _ (try_ok _ _ _ _ E2)) in E. injection E as <- _. reflexivity.
+  Qed.
+
+  Lemma next_tag_keyword_off s tI r off s1 : Inv s -> first_ok s -> ps_after s = tI :: r -> tk_type tI = TIdentifier ->
+    get_next_tag_or_comment c s = (ROk (BCBlock tI false off), s1) -> ps_after s1 <> [] -> off = tk_line tI - prevl s.
+  Proof.
+    intros I Hfo Ha HI E Hne. unfold get_next_tag_or_comment, get_tokenpos, peek_token in E. unfold bindM at 1 in E. unfold bindM at 1 in E.
+    rewrite Ha, HI in E. cbn [ttype_eqb] in E.
+    destruct (expect_fine c TIdentifier s tI r I Ha HI) as (s2 & E1 & A1).
+    rewrite (bind_ok _ _ _ _ _ (try_ok _ _ _ _ E1)) in E.
+    destruct (bind_ok_inv _ _ _ _ _ E) as (off2 & s3 & G & E3). injection E3 as <- <-.
+    assert (s3 = s2) by exact (glo_inv s2 off2 s3 (adv_inv _ _ _ I A1) G). subst s3.
+    pose proof (glo_after [] tI s s2 I Hfo A1 Hne) as G2. rewrite G in G2. injection G2 as ->. reflexivity.
+  Qed.
 End NextTag.
 
 (* ---------- which values are covered: no A2ML and no IF_DATA below, position restrictions that reorder nothing ---------- *)
@@ -571,9 +622,10 @@ Definition struct_ty_ok (S : spec) (sn : string) : bool :=
 Definition fty_ok (S : spec) (ty : fty) : bool :=
   match ty with
   | FStruct sn => struct_ty_ok S sn
-  | FArray t _ => simple_ty t
+  | FArray t _ => simple_ty t && nomax t
   | FSeq (FStruct sn) _ => struct_ty_ok S sn
-  | FSeq t _ => simple_ty t
+  | FSeq t _ => simple_ty t && nomax t
+  | FStringMax _ => false
   | _ => true
   end.
 Definition titem_ok (S : spec) (ti : titem) : bool :=
@@ -604,19 +656,25 @@ Section Elements.
   Variable ifuel : nat.
   Variable rec : tydef -> ctx -> N -> M value.
   Variable w : value -> list shape.
+  Variable wo : value -> list (option N).
   Variable pl : tydef -> value -> Prop.
 
   Definition tr (ts : list token) (ws : list shape) : Prop := Forall2 (reads_as ftab) ts ws.
-  Definition node_at (td : tydef) (v : value) (s s' : pstate) : Prop :=
-    exists lay fields kids, v = VNode (t_name td) lay fields kids [] /\ l_uid lay = ps_seq s + 1 /\ ps_seq s + 1 <= ps_seq s'.
+  Definition node_at (td : tydef) (off : N) (v : value) (s s' : pstate) : Prop :=
+    exists lay fields kids, v = VNode (t_name td) lay fields kids [] /\ l_uid lay = ps_seq s + 1 /\ ps_seq s + 1 <= ps_seq s' /\
+                            l_so lay = off.
+  (* the lines, once it is known that the run did not end at the very end of the file *)
+  Definition lns (s s' : pstate) (ts : list token) (offs : list (option N)) : Prop :=
+    ps_after s' <> [] -> lines_as (prevl s) ts offs.
 
   Hypothesis Hrec_cs : forall td cc off, csim (rec td cc off).
   Hypothesis Hrec_sm : forall td cc off, smono (rec td cc off).
   Hypothesis Hrec_mv : forall td cc off, simple_struct S td = true -> moves (rec td cc off).
-  Hypothesis Hrec_tr : forall td cc off s v s', c_fileid cc = O -> Inv s -> ps_ftab s = ftab ->
+  Hypothesis Hrec_tr : forall td cc off s v s', c_fileid cc = O -> Inv s -> first_ok s -> ps_ftab s = ftab ->
     lookup_ty S (t_name td) = Some td -> t_special td = None ->
     rec td cc off s = (ROk v, s') -> ps_log s' = ps_log s -> pl td v ->
-    exists ts, adv ts s s' /\ tr ts (w v ++ closing (is_blockb td) (c_element cc)) /\ node_at td v s s'.
+    exists ts, adv ts s s' /\ tr ts (w v ++ closing (is_blockb td) (c_element cc)) /\ node_at td off v s s' /\
+               lns s s' ts (wo v ++ closing_offs (is_blockb td) v).
   Hypothesis Hpl_struct : forall td v, simple_struct S td = true -> pl td v.
 
   Variable c : ctx.
@@ -625,27 +683,42 @@ Section Elements.
   Lemma tr_app a b x y : tr a x -> tr b y -> tr (a ++ b) (x ++ y).
   Proof. apply Forall2_app. Qed.
 
+  Lemma lns_app s s1 s' t1 t2 o1 o2 : adv t1 s s1 -> adv t2 s1 s' -> lns s s1 t1 o1 -> lns s1 s' t2 o2 -> lns s s' (t1 ++ t2) (o1 ++ o2).
+  Proof.
+    intros A1 A2 H1 H2 Hne. apply lines_as_app.
+    - apply H1. rewrite (adv_after _ _ _ A2). intros Q. apply app_eq_nil in Q. destruct Q as [_ Q]. contradiction.
+    - rewrite <- (adv_prevl _ _ _ A1). exact (H2 Hne).
+  Qed.
+  Lemma lns_nil s s' : lns s s' [] [].
+  Proof. intros _. exact Logic.I. Qed.
+
   (* one element of an array or a sequence *)
   Definition elem_toks (ty : fty) (v : value) : list shape :=
     match ty with FStruct _ => w v | _ => scalar_toks ftab ty v end.
-  Definition elem_ok (ty : fty) : bool := match ty with FStruct sn => struct_ty_ok S sn | _ => simple_ty ty end.
+  Definition elem_offs (ty : fty) (v : value) : list (option N) :=
+    match ty with FStruct _ => wo v | _ => scalar_offs ty v end.
+  Definition elem_ok (ty : fty) : bool := match ty with FStruct sn => struct_ty_ok S sn | _ => simple_ty ty && nomax ty end.
 
-  Lemma elem_trace ty s v s' : elem_ok ty = true -> Inv s -> ps_ftab s = ftab ->
+  Lemma elem_trace ty s v s' : elem_ok ty = true -> Inv s -> first_ok s -> ps_ftab s = ftab ->
     parse_scalar_field S rec ty c s = (ROk v, s') -> ps_log s' = ps_log s ->
-    exists ts, adv ts s s' /\ tr ts (elem_toks ty v).
+    exists ts, adv ts s s' /\ tr ts (elem_toks ty v) /\ lns s s' ts (elem_offs ty v).
   Proof.
-    intros Hok I Hf E L. destruct (simple_ty ty) eqn:Hs.
-    - destruct (scalar_trace S ftab rec c Hc ty s v s' Hs I Hf E L) as (t & r & x & _ & A & Ht & Hr).
-      exists [t]. split; [exact A|]. assert (elem_toks ty v = [x]) as ->.
-      { destruct ty; try discriminate; exact Ht. }
-      constructor; [exact Hr | constructor].
+    intros Hok I Hfo Hf E L. destruct (simple_ty ty) eqn:Hs.
+    - assert (Hnm : nomax ty = true).
+      { destruct ty; try discriminate Hs; cbn [elem_ok] in Hok; apply andb_true_iff in Hok; exact (proj2 Hok). }
+      destruct (scalar_trace S ftab rec c Hc ty s v s' Hs Hnm I Hfo Hf E L) as (t & r & x & o & _ & A & Ht & Hr & Ho & Hl).
+      exists [t]. split; [exact A|]. assert (elem_toks ty v = [x]) as -> by (destruct ty; try discriminate; exact Ht).
+      assert (elem_offs ty v = [o]) as -> by (destruct ty; try discriminate; exact Ho).
+      split; [constructor; [exact Hr | constructor]|]. intros Hne. cbn [lines_as]. split; [|exact Logic.I].
+      specialize (Hl Hne). exact Hl.
     - destruct ty; try discriminate. cbn [elem_ok] in Hok. unfold struct_ty_ok in Hok. cbn [parse_scalar_field] in E.
       destruct (lookup_ty S s0) as [td|] eqn:Ltd; [|discriminate].
       assert (Hsp : t_special td = None).
       { unfold simple_struct in Hok. repeat (apply andb_true_iff in Hok; let Y := fresh "Y" in destruct Hok as [Hok Y]).
         destruct (t_special td); [discriminate | reflexivity]. }
-      destruct (Hrec_tr td c 0 s v s' Hc I Hf (lookup_name _ _ _ Ltd) Hsp E L (Hpl_struct td v Hok)) as (ts & A & T & _).
-      exists ts. split; [exact A|]. rewrite (struct_not_block S td Hok) in T. cbn [closing] in T. rewrite app_nil_r in T. exact T.
+      destruct (Hrec_tr td c 0 s v s' Hc I Hfo Hf (lookup_name _ _ _ Ltd) Hsp E L (Hpl_struct td v Hok)) as (ts & A & T & _ & Hl).
+      exists ts. split; [exact A|]. rewrite (struct_not_block S td Hok) in T, Hl. cbn [closing closing_offs] in T, Hl.
+      rewrite app_nil_r in T, Hl. split; [exact T | exact Hl].
   Qed.
 
   Lemma elem_moves ty : elem_ok ty = true -> moves (parse_scalar_field S rec ty c).
@@ -662,74 +735,82 @@ Section Elements.
   Proof. apply csim_parse_seq. exact Hrec_cs. Qed.
   Hint Resolve elem_csim l_csim_parse_n l_csim_parse_seq : csim.
 
-  Lemma array_trace ty : elem_ok ty = true -> forall n s l s', Inv s -> ps_ftab s = ftab ->
+  Lemma array_trace ty : elem_ok ty = true -> forall n s l s', Inv s -> first_ok s -> ps_ftab s = ftab ->
     parse_n S rec n ty c s = (ROk l, s') -> ps_log s' = ps_log s ->
-    exists ts, adv ts s s' /\ tr ts (flat_map (elem_toks ty) l).
+    exists ts, adv ts s s' /\ tr ts (flat_map (elem_toks ty) l) /\ lns s s' ts (flat_map (elem_offs ty) l).
   Proof.
-    intros Hok. induction n as [|n IH]; intros s l s' I Hf E L; cbn [parse_n] in E.
-    - injection E as <- <-. exists []. split; [apply adv_refl, (inv_pos s I) | constructor].
+    intros Hok. induction n as [|n IH]; intros s l s' I Hfo Hf E L; cbn [parse_n] in E.
+    - injection E as <- <-. exists []. split; [apply adv_refl, (inv_pos s I) | split; [constructor | apply lns_nil]].
     - apply bind_clean_inv in E; [|cs|intro; cs|exact L].
       destruct E as (v & s1 & E1 & L1 & E2 & L2).
-      destruct (elem_trace ty s v s1 Hok I Hf E1 L1) as (t1 & A1 & T1).
+      destruct (elem_trace ty s v s1 Hok I Hfo Hf E1 L1) as (t1 & A1 & T1 & Ln1).
       apply bind_clean_inv in E2; [|cs|intro; cs|exact L2].
       destruct E2 as (r & s2 & E3 & L3 & E4 & _). injection E4 as <- <-.
-      destruct (IH s1 r s2 (adv_inv _ _ _ I A1)) as (t2 & A2 & T2); try assumption.
+      destruct (IH s1 r s2 (adv_inv _ _ _ I A1) (first_ok_adv _ _ _ A1 Hfo)) as (t2 & A2 & T2 & Ln2); try assumption.
       { rewrite (se_ftab _ _ (adv_static _ _ _ A1)). exact Hf. }
-      exists (t1 ++ t2). split; [exact (adv_trans _ _ _ _ _ A1 A2) | cbn [flat_map]; apply tr_app; assumption].
+      exists (t1 ++ t2). split; [exact (adv_trans _ _ _ _ _ A1 A2)|]. cbn [flat_map].
+      split; [apply tr_app; assumption | exact (lns_app _ _ _ _ _ _ _ A1 A2 Ln1 Ln2)].
   Qed.
 
-  Lemma seq_trace ty stop : elem_ok ty = true -> forall n acc s l s', Inv s -> ps_ftab s = ftab ->
+  Lemma seq_trace ty stop : elem_ok ty = true -> forall n acc s l s', Inv s -> first_ok s -> ps_ftab s = ftab ->
     parse_seq S rec n ty stop c acc s = (ROk l, s') -> ps_log s' = ps_log s ->
-    exists ts l2, l = acc ++ l2 /\ adv ts s s' /\ tr ts (flat_map (elem_toks ty) l2).
+    exists ts l2, l = acc ++ l2 /\ adv ts s s' /\ tr ts (flat_map (elem_toks ty) l2) /\ lns s s' ts (flat_map (elem_offs ty) l2).
   Proof.
-    intros Hok. induction n as [|n IH]; intros acc s l s' I Hf E L; cbn [parse_seq] in E; [discriminate|].
+    intros Hok. induction n as [|n IH]; intros acc s l s' I Hfo Hf E L; cbn [parse_seq] in E; [discriminate|].
     apply bind_clean_inv in E; [|cs|intro; cs|exact L].
     destruct E as (pos & s0 & E0 & _ & E & L0). unfold get_tokenpos in E0. injection E0 as <- <-.
     apply bind_clean_inv in E; [|cs|intro; cs|exact L0].
     destruct E as (r & s1 & E1 & L1 & E2 & L2).
     destruct (try_clean_inv _ _ _ _ (elem_csim ty) E1 L1) as [(v & X & ->)|(d & X & ->)].
-    - destruct (elem_trace ty s v s1 Hok I Hf X L1) as (t1 & A1 & T1).
+    - destruct (elem_trace ty s v s1 Hok I Hfo Hf X L1) as (t1 & A1 & T1 & Ln1).
       destruct (is_stopword stop v).
-      + destruct (restore_inv acc l t1 s s1 s' I A1 E2) as [-> A]. exists [], []. rewrite app_nil_r. refine (conj eq_refl (conj A _)). constructor.
-      + destruct (IH (acc ++ [v]) s1 l s' (adv_inv _ _ _ I A1)) as (t2 & l2 & -> & A2 & T2); try assumption.
+      + destruct (restore_inv acc l t1 s s1 s' I A1 E2) as [-> A]. exists [], []. rewrite app_nil_r.
+        refine (conj eq_refl (conj A (conj _ (lns_nil _ _)))). constructor.
+      + destruct (IH (acc ++ [v]) s1 l s' (adv_inv _ _ _ I A1) (first_ok_adv _ _ _ A1 Hfo)) as (t2 & l2 & -> & A2 & T2 & Ln2); try assumption.
         { rewrite (se_ftab _ _ (adv_static _ _ _ A1)). exact Hf. }
         exists (t1 ++ t2), (v :: l2). rewrite <- app_assoc. split; [reflexivity|]. split; [exact (adv_trans _ _ _ _ _ A1 A2)|].
-        cbn [flat_map]. apply tr_app; assumption.
+        cbn [flat_map]. split; [apply tr_app; assumption | exact (lns_app _ _ _ _ _ _ _ A1 A2 Ln1 Ln2)].
     - destruct (elem_moves ty Hok s _ s1 I X) as (t1 & A1).
-      destruct (restore_inv acc l t1 s s1 s' I A1 E2) as [-> A]. exists [], []. rewrite app_nil_r. refine (conj eq_refl (conj A _)). constructor.
+      destruct (restore_inv acc l t1 s s1 s' I A1 E2) as [-> A]. exists [], []. rewrite app_nil_r.
+      refine (conj eq_refl (conj A (conj _ (lns_nil _ _)))). constructor.
   Qed.
 
   (* a field *)
   Lemma field_toks_elem_seq ty stop l : elem_ok ty = true -> field_toks ftab w (FSeq ty stop) (VList l) = flat_map (elem_toks ty) l.
   Proof. intros H. destruct ty; try discriminate; reflexivity. Qed.
+  Lemma field_offs_elem_seq ty stop l : elem_ok ty = true -> field_offs wo (FSeq ty stop) (VList l) = flat_map (elem_offs ty) l.
+  Proof. intros H. destruct ty; try discriminate; reflexivity. Qed.
 
-  Lemma field_trace ty s v s' : fty_ok S ty = true -> Inv s -> ps_ftab s = ftab ->
+  Lemma field_trace ty s v s' : fty_ok S ty = true -> Inv s -> first_ok s -> ps_ftab s = ftab ->
     parse_field S rec ty c s = (ROk v, s') -> ps_log s' = ps_log s ->
-    exists ts, adv ts s s' /\ tr ts (field_toks ftab w ty v).
+    exists ts, adv ts s s' /\ tr ts (field_toks ftab w ty v) /\ lns s s' ts (field_offs wo ty v).
   Proof.
-    intros Hok I Hf E L.
+    intros Hok I Hfo Hf E L.
     assert (Helem : forall t, elem_ok t = true -> parse_scalar_field S rec t c s = (ROk v, s') ->
-                    field_toks ftab w t v = elem_toks t v -> exists ts, adv ts s s' /\ tr ts (field_toks ftab w t v)).
-    { intros t Ht X Q. rewrite Q. exact (elem_trace t s v s' Ht I Hf X L). }
+                    field_toks ftab w t v = elem_toks t v -> field_offs wo t v = elem_offs t v ->
+                    exists ts, adv ts s s' /\ tr ts (field_toks ftab w t v) /\ lns s s' ts (field_offs wo t v)).
+    { intros t Ht X Q Q2. rewrite Q, Q2. exact (elem_trace t s v s' Ht I Hfo Hf X L). }
     destruct ty as [t| | | | |n|e|sn|ty n|ty stop]; cbn [parse_field] in E;
       try (match type of E with parse_scalar_field _ _ ?t _ _ = _ => apply (Helem t eq_refl E) end; reflexivity).
-    - apply (Helem (FStruct sn) Hok E). reflexivity.
+    - discriminate Hok.
+    - apply (Helem (FStruct sn) Hok E); reflexivity.
     - (* array *)
       cbn [fty_ok] in Hok.
       apply bind_clean_inv in E; [|cs|intro; cs|exact L]. destruct E as (l & s1 & E1 & L1 & E2 & _).
       injection E2 as <- <-.
       assert (Hel : elem_ok ty = true) by (destruct ty; try discriminate; exact Hok).
-      destruct (array_trace ty Hel n s l s1 I Hf E1 L1) as (ts & A & T). exists ts. split; [exact A|].
+      destruct (array_trace ty Hel n s l s1 I Hfo Hf E1 L1) as (ts & A & T & Ln). exists ts. split; [exact A|].
       assert (field_toks ftab w (FArray ty n) (VList l) = flat_map (elem_toks ty) l) as -> by (destruct ty; try discriminate; reflexivity).
-      exact T.
+      assert (field_offs wo (FArray ty n) (VList l) = flat_map (elem_offs ty) l) as -> by (destruct ty; try discriminate; reflexivity).
+      split; [exact T | exact Ln].
     - (* sequence *)
       assert (Hel : elem_ok ty = true) by (destruct ty; try discriminate; exact Hok).
       apply bind_clean_inv in E; [|cs|intro; cs|exact L]. destruct E as (n & s0 & E0 & _ & E & L0).
       unfold remaining in E0. injection E0 as <- <-.
       apply bind_clean_inv in E; [|cs|intro; cs|exact L0]. destruct E as (l & s1 & E1 & L1 & E2 & _).
       injection E2 as <- <-.
-      destruct (seq_trace ty stop Hel _ [] s l s1 I Hf E1 L1) as (ts & l2 & -> & A & T). exists ts. split; [exact A|].
-      cbn [app]. rewrite (field_toks_elem_seq ty stop l2 Hel). exact T.
+      destruct (seq_trace ty stop Hel _ [] s l s1 I Hfo Hf E1 L1) as (ts & l2 & -> & A & T & Ln). exists ts. split; [exact A|].
+      cbn [app]. rewrite (field_toks_elem_seq ty stop l2 Hel), (field_offs_elem_seq ty stop l2 Hel). split; [exact T | exact Ln].
   Qed.
 
   (* ---------- the children of a block ---------- *)
@@ -814,20 +895,25 @@ Section Elements.
     Definition head_toks (isb : bool) (tag : bytes) : list shape :=
       if isb then [(TBegin, begin_text); (TIdentifier, tag)] else [(TIdentifier, tag)].
 
-    Lemma next_tag_inv2 s nt s1 : Inv s -> get_next_tag_or_comment c s = (ROk nt, s1) ->
+    Definition head_offs (isb : bool) (off : N) : list (option N) := if isb then [Some off; None] else [Some off].
+
+    Lemma next_tag_inv2 s nt s1 : Inv s -> first_ok s -> get_next_tag_or_comment c s = (ROk nt, s1) ->
       (exists token isb off pre, nt = BCBlock token isb off /\ adv (pre ++ [token]) s s1 /\ tk_fileid token = O /\
-         tr (pre ++ [token]) (head_toks isb (tk_text token)) /\ length pre = (if isb then 1 else 0)%nat) \/
+         tr (pre ++ [token]) (head_toks isb (tk_text token)) /\ length pre = (if isb then 1 else 0)%nat /\
+         lns s s1 (pre ++ [token]) (head_offs isb off)) \/
       (nt = BCNone /\ adv [] s s1).
     Proof.
-      intros I E. destruct (next_tag_inv c Hc s nt s1 I E) as [(tB & tI & r & off & Ea & HB & HI & -> & A)|[(tI & r & off & Ea & HI & -> & A)|[-> A]]].
-      - left. exists tI, true, off, [tB]. pose proof (tok_ok_in_after s _ I Ea) as F.
+      intros I Hfo E. destruct (next_tag_inv c Hc s nt s1 I E) as [(tB & tI & r & off & Ea & HB & HI & Hnt & A)|[(tI & r & off & Ea & HI & Hnt & A)|[-> A]]].
+      - left. subst nt. exists tI, true, off, [tB]. pose proof (tok_ok_in_after s _ I Ea) as F.
         inversion F as [|? ? _ F2]; subst. inversion F2 as [|? ? (Hf & _) _]; subst.
-        refine (conj eq_refl (conj A (conj Hf (conj _ eq_refl)))).
-        constructor; [split; [exact HB | exact Logic.I]|]. constructor; [split; [exact HI | reflexivity] | constructor].
-      - left. exists tI, false, off, []. pose proof (tok_ok_in_after s _ I Ea) as F.
+        refine (conj eq_refl (conj A (conj Hf (conj _ (conj eq_refl _))))).
+        + constructor; [split; [exact HB | exact Logic.I]|]. constructor; [split; [exact HI | reflexivity] | constructor].
+        + intros _. rewrite (next_tag_block_off c s tB tI r off s1 I Hfo Ea HB HI E). cbn. auto.
+      - left. subst nt. exists tI, false, off, []. pose proof (tok_ok_in_after s _ I Ea) as F.
         inversion F as [|? ? (Hf & _) _]; subst.
-        refine (conj eq_refl (conj A (conj Hf (conj _ eq_refl)))).
-        constructor; [split; [exact HI | reflexivity] | constructor].
+        refine (conj eq_refl (conj A (conj Hf (conj _ (conj eq_refl _))))).
+        + constructor; [split; [exact HI | reflexivity] | constructor].
+        + intros Hne. rewrite (next_tag_keyword_off c s tI r off s1 I Hfo Ea HI E Hne). cbn. auto.
       - right. auto.
     Qed.
 
@@ -849,24 +935,28 @@ Section Elements.
       destruct (Nat.eqb_spec i idx) as [->|_]; [rewrite H0; reflexivity | rewrite app_nil_r; reflexivity].
     Qed.
 
-    Lemma loop_trace : forall n K cms s K' cms' s', Inv s -> ps_ftab s = ftab -> length K = length titems ->
+    Definition ekid_offs (e : entry) : list (option N) := kid_offs (snd (fst e)) (snd e) (wo (snd e)).
+
+    Lemma loop_trace : forall n K cms s K' cms' s', Inv s -> first_ok s -> ps_ftab s = ftab -> length K = length titems ->
       tagged_loop S rec ifuel n pib last titems c K cms s = (ROk (K', cms'), s') -> ps_log s' = ps_log s ->
       (forall i ti k, nth_error titems i = Some ti -> In k (nth i K' []) -> kid_ok S pl ti k) ->
       exists P ts, adv ts s s' /\ cms' = cms /\ length K' = length K /\
         (forall i, nth i K' [] = nth i K [] ++ kids_at i P) /\
         tr ts (flat_map ekid_toks P) /\
         Forall (fun e : entry => nth_error titems (fst (fst e)) = Some (snd (fst e))) P /\
-        uid_chain (ps_seq s) P.
+        uid_chain (ps_seq s) P /\
+        lns s s' ts (flat_map ekid_offs P).
     Proof.
-      induction n as [|n IH]; intros K cms s K' cms' s' I Hf Hlen E L Hpl; [discriminate|]. cbn [tagged_loop] in E.
+      induction n as [|n IH]; intros K cms s K' cms' s' I Hfo Hf Hlen E L Hpl; [discriminate|]. cbn [tagged_loop] in E.
       apply bind_clean_inv in E; [|cs|intro; cs|exact L]. destruct E as (nt & s1 & E1 & L1 & E & L1').
       pose proof (smono_get_next_tag_or_comment c _ _ _ E1) as Sq1.
-      destruct (next_tag_inv2 s nt s1 I E1) as [(token & isb & off & pre & -> & A1 & Hfile & T1 & Hpre)|[-> A1]].
-      2:{ injection E as <- <- <-. exists [], []. refine (conj A1 (conj eq_refl (conj eq_refl (conj _ (conj _ (conj _ Logic.I)))))).
+      destruct (next_tag_inv2 s nt s1 I Hfo E1) as [(token & isb & off & pre & -> & A1 & Hfile & T1 & Hpre & Ln1)|[-> A1]].
+      2:{ injection E as <- <- <-. exists [], []. refine (conj A1 (conj eq_refl (conj eq_refl (conj _ (conj _ (conj _ (conj Logic.I (lns_nil _ _)))))))).
           - intros i. cbn. rewrite app_nil_r. reflexivity.
           - constructor.
           - constructor. }
       assert (I1 : Inv s1) by (eapply adv_inv; eassumption).
+      assert (Hfo1 : first_ok s1) by exact (first_ok_adv _ _ _ A1 Hfo).
       assert (Hf1 : ps_ftab s1 = ftab) by (rewrite (se_ftab _ _ (adv_static _ _ _ A1)); exact Hf).
       set (tag := tk_text token) in *. set (newc := ctx_from_token tag token) in *.
       destruct (find_titem titems tag 0) as [[idx ti]|] eqn:F.
@@ -904,10 +994,12 @@ Section Elements.
         pose proof (Hpl idx ti x Hnth Hin) as Hk. unfold kid_ok in Hk. rewrite Ltd in Hk. destruct Hk as [Hsp Hk].
         unfold parse_special_or_generic in E5. rewrite Hsp in E5.
         assert (Hnc : c_fileid newc = O) by exact Hfile.
-        destruct (Hrec_tr td newc off s1 x s5 Hnc I1 Hf1 (lookup_name _ _ _ Ltd) Hsp E5 L5 Hk) as (t2 & A2 & T2 & (lay & fs & ks & Hx & Huid & Hseq)).
+        destruct (Hrec_tr td newc off s1 x s5 Hnc I1 Hfo1 Hf1 (lookup_name _ _ _ Ltd) Hsp E5 L5 Hk)
+          as (t2 & A2 & T2 & (lay & fs & ks & Hx & Huid & Hseq & Hso) & Ln2).
         assert (I5 : Inv s5) by (eapply adv_inv; eassumption).
         assert (Hf5 : ps_ftab s5 = ftab) by (rewrite (se_ftab _ _ (adv_static _ _ _ A2)); exact Hf1).
-        destruct (IH K1 cms s5 K' cms' s' I5 Hf5 (eq_trans Hlen1 Hlen) Erest Lrest Hpl) as (P & t3 & A3 & Hc' & HlenK & HK' & T3 & FP & UC).
+        destruct (IH K1 cms s5 K' cms' s' I5 (first_ok_adv _ _ _ A2 Hfo1) Hf5 (eq_trans Hlen1 Hlen) Erest Lrest Hpl)
+          as (P & t3 & A3 & Hc' & HlenK & HK' & T3 & FP & UC & Ln3).
         exists ((idx, ti, x) :: P), ((pre ++ [token]) ++ t2 ++ t3).
         split; [exact (adv_trans _ _ _ _ _ A1 (adv_trans _ _ _ _ _ A2 A3))|]. split; [exact Hc'|]. split; [congruence|]. split.
         { intros i. rewrite HK', HK1, <- app_assoc. f_equal. unfold kids_at. cbn [filter fst snd].
@@ -923,8 +1015,20 @@ Section Elements.
           - change ((TIdentifier, tag) :: w x) with ([(TIdentifier, tag)] ++ w x).
             apply tr_app; [exact T1|]. rewrite <- Hisb in T2. cbn [closing] in T2. rewrite app_nil_r in T2. exact T2. }
         split; [constructor; [exact Hnth | exact FP]|].
-        cbn [uid_chain]. unfold euid at 1 2. cbn [snd]. rewrite Hx. cbn [layout_of]. rewrite Huid. split; [lia|].
-        apply (uid_chain_weaken P _ (ps_seq s5)); [lia | exact UC].
+        split.
+        { cbn [uid_chain]. unfold euid at 1 2. cbn [snd]. rewrite Hx. cbn [layout_of]. rewrite Huid. split; [lia|].
+          apply (uid_chain_weaken P _ (ps_seq s5)); [lia | exact UC]. }
+        (* the lines *)
+        cbn [flat_map]. rewrite app_assoc.
+        apply (lns_app s s5 s' _ t3 _ _ (adv_trans _ _ _ _ _ A1 A2) A3); [|exact Ln3].
+        unfold ekid_offs. cbn [fst snd]. unfold kid_offs. rewrite <- (Hblk idx ti td Hnth Ltd) in Ln2. rewrite <- Hisb in *.
+        assert (Hso' : l_so (layout_of x) = off) by (rewrite Hx; exact Hso).
+        unfold head_offs in Ln1. destruct isb.
+        + change (Some (l_so (layout_of x)) :: None :: wo x ++ [Some (l_eo (layout_of x)); None])
+            with ([Some (l_so (layout_of x)); None] ++ (wo x ++ [Some (l_eo (layout_of x)); None])).
+          rewrite Hso'. apply (lns_app s s1 s5 _ t2 _ _ A1 A2 Ln1). exact Ln2.
+        + change (Some (l_so (layout_of x)) :: wo x) with ([Some (l_so (layout_of x))] ++ wo x).
+          rewrite Hso'. apply (lns_app s s1 s5 _ t2 _ _ A1 A2 Ln1). cbn [closing_offs] in Ln2. rewrite app_nil_r in Ln2. exact Ln2.
       - destruct (pib && last).
         + apply bind_clean_inv in E; [|cs|intro; cs|exact L1']. destruct E as (u & s2 & E2 & L2 & _ & _).
           destruct (handle_unknown_not_clean _ _ _ _ _ _ _ E2 L2).
@@ -936,7 +1040,7 @@ Section Elements.
             - destruct pre as [|tB [|? ?]]; try discriminate. rewrite Ua in E2. injection E2 as _ <-.
               destruct (undo_back [] tB s sa Aa) as (sb & Ub & Ab). rewrite Ub in E4. injection E4 as _ <-. exact Ab.
             - destruct pre; [|discriminate]. injection E2 as _ <-. rewrite Ua in E4. injection E4 as _ <-. exact Aa. }
-          exists [], []. refine (conj A3 (conj eq_refl (conj eq_refl (conj _ (conj _ (conj _ Logic.I)))))).
+          exists [], []. refine (conj A3 (conj eq_refl (conj eq_refl (conj _ (conj _ (conj _ (conj Logic.I (lns_nil _ _)))))))).
           * intros i. cbn. rewrite app_nil_r. reflexivity.
           * constructor.
           * constructor.
@@ -1008,25 +1112,25 @@ Section Elements.
   Qed.
 
   Lemma items_trace : forall its isb fields kids cms s f' k' c' s', forallb (item_okb S) its = true ->
-    Inv s -> ps_ftab s = ftab ->
+    Inv s -> first_ok s -> ps_ftab s = ftab ->
     parse_items S rec ifuel its isb c fields kids cms s = (ROk (f', k', c'), s') -> ps_log s' = ps_log s ->
     items_good S posrs pl its (skipn (length kids) k') ->
     exists nf nk ts, f' = fields ++ nf /\ k' = kids ++ nk /\ c' = cms /\ adv ts s s' /\
-                     tr ts (items_toks S posrs ftab w its nf nk).
+                     tr ts (items_toks S posrs ftab w its nf nk) /\ lns s s' ts (items_offs S posrs wo its nf nk).
   Proof.
-    induction its as [|it r IH]; intros isb fields kids cms s f' k' c' s' Hok I Hf E L Hg; cbn [parse_items] in E.
+    induction its as [|it r IH]; intros isb fields kids cms s f' k' c' s' Hok I Hfo Hf E L Hg; cbn [parse_items] in E.
     - injection E as <- <- <- <-. exists [], [], []. rewrite !app_nil_r.
-      refine (conj eq_refl (conj eq_refl (conj eq_refl (conj (adv_refl s (inv_pos s I)) _)))). constructor.
+      refine (conj eq_refl (conj eq_refl (conj eq_refl (conj (adv_refl s (inv_pos s I)) (conj _ (lns_nil _ _)))))). constructor.
     - cbn [forallb] in Hok. apply andb_true_iff in Hok. destruct Hok as [Hit Hok]. destruct it as [nm ty|union last titems].
       + cbn [item_okb] in Hit.
         apply bind_clean_inv in E; [|cs|intro; cs|exact L]. destruct E as (v & s1 & E1 & L1 & E2 & L2).
-        destruct (field_trace ty s v s1 Hit I Hf E1 L1) as (t1 & A1 & T1).
-        destruct (IH isb (fields ++ [v]) kids cms s1 f' k' c' s' Hok (adv_inv _ _ _ I A1)) as (nf & nk & t2 & -> & -> & -> & A2 & T2);
-          try assumption.
+        destruct (field_trace ty s v s1 Hit I Hfo Hf E1 L1) as (t1 & A1 & T1 & Ln1).
+        destruct (IH isb (fields ++ [v]) kids cms s1 f' k' c' s' Hok (adv_inv _ _ _ I A1) (first_ok_adv _ _ _ A1 Hfo))
+          as (nf & nk & t2 & -> & -> & -> & A2 & T2 & Ln2); try assumption.
         { rewrite (se_ftab _ _ (adv_static _ _ _ A1)). exact Hf. }
         exists (v :: nf), nk, (t1 ++ t2). rewrite <- app_assoc.
         refine (conj eq_refl (conj eq_refl (conj eq_refl (conj (adv_trans _ _ _ _ _ A1 A2) _)))).
-        cbn [items_toks]. apply tr_app; assumption.
+        cbn [items_toks items_offs]. split; [apply tr_app; assumption | exact (lns_app _ _ _ _ _ _ _ A1 A2 Ln1 Ln2)].
       + cbn [item_okb] in Hit. apply andb_true_iff in Hit. destruct Hit as [Hun Hti]. apply negb_true_iff in Hun. subst union.
         apply bind_clean_inv in E; [|cs|intro; cs|exact L]. destruct E as (n & s0 & E0 & _ & E & L0).
         unfold remaining in E0. injection E0 as <- <-.
@@ -1038,21 +1142,21 @@ Section Elements.
         assert (Hskip : skipn (length kids) k' = K' ++ nkr) by (rewrite Hk0, <- app_assoc; apply skipn_app_exact).
         cbn [items_good] in Hg. rewrite Hskip in Hg. rewrite <- HlenK in Hg. rewrite firstn_app_exact, skipn_app_exact in Hg.
         destruct Hg as [[Hkids Hord] Hgr].
-        destruct (loop_trace titems last isb (titems_blk titems Hti) _ _ _ _ _ _ _ I Hf (map_length _ _) E1 L1 Hkids)
-          as (P & t1 & A1 & -> & _ & HK' & T1 & FP & UC).
+        destruct (loop_trace titems last isb (titems_blk titems Hti) _ _ _ _ _ _ _ I Hfo Hf (map_length _ _) E1 L1 Hkids)
+          as (P & t1 & A1 & -> & _ & HK' & T1 & FP & UC & Ln1).
         assert (HK2 : forall i, nth i K' [] = kids_at i P) by (intros i; rewrite HK', nth_map_nil; reflexivity).
         pose proof (ordered_kids_parse_order S posrs titems K' P (ps_seq s) HlenK HK2 FP UC Hord) as Hop.
-        destruct (IH isb fields (kids ++ K') cms s1 f' k' c' s' Hok (adv_inv _ _ _ I A1)) as (nf & nk & t2 & -> & Hk1 & -> & A2 & T2);
-          try assumption.
+        destruct (IH isb fields (kids ++ K') cms s1 f' k' c' s' Hok (adv_inv _ _ _ I A1) (first_ok_adv _ _ _ A1 Hfo))
+          as (nf & nk & t2 & -> & Hk1 & -> & A2 & T2 & Ln2); try assumption.
         { rewrite (se_ftab _ _ (adv_static _ _ _ A1)). exact Hf. }
         { rewrite Hk0, skipn_app_exact. exact Hgr. }
         assert (nk = nkr) by (rewrite Hk0 in Hk1; apply app_inv_head in Hk1; symmetry; exact Hk1). subst nk.
         exists nf, (K' ++ nkr), (t1 ++ t2). rewrite Hk0, <- app_assoc.
         refine (conj eq_refl (conj eq_refl (conj eq_refl (conj (adv_trans _ _ _ _ _ A1 A2) _)))).
-        cbn [items_toks]. rewrite <- HlenK, firstn_app_exact, skipn_app_exact. apply tr_app; [|exact T2].
-        unfold group_toks. rewrite Hop. exact T1.
+        cbn [items_toks items_offs]. rewrite <- HlenK, !firstn_app_exact, !skipn_app_exact. split.
+        * apply tr_app; [|exact T2]. unfold group_toks. rewrite Hop. exact T1.
+        * apply (lns_app _ _ _ _ _ _ _ A1 A2); [|exact Ln2]. unfold group_offs. rewrite Hop. exact Ln1.
   Qed.
-
   (* ---------- one element ---------- *)
   Lemma l_smono_parse_items isb cc its fields kids cms : smono (parse_items S rec ifuel its isb cc fields kids cms).
   Proof. apply smono_parse_items. exact Hrec_sm. Qed.
@@ -1071,14 +1175,17 @@ Section Elements.
 
   Definition body_toks (td : tydef) (v : value) : list shape :=
     match v with VNode _ _ fields kids _ => items_toks S posrs ftab w (t_items td) fields kids | _ => [] end.
+  Definition body_offs (td : tydef) (v : value) : list (option N) :=
+    match v with VNode _ _ fields kids _ => items_offs S posrs wo (t_items td) fields kids | _ => [] end.
   Definition body_good (td : tydef) (v : value) : Prop :=
     match v with VNode _ _ _ kids _ => items_good S posrs pl (t_items td) kids | _ => True end.
 
-  Lemma body_trace td off s v s' : td_ok S td = true -> Inv s -> ps_ftab s = ftab ->
+  Lemma body_trace td off s v s' : td_ok S td = true -> Inv s -> first_ok s -> ps_ftab s = ftab ->
     parse_body S rec ifuel td c off s = (ROk v, s') -> ps_log s' = ps_log s -> body_good td v ->
-    exists ts, adv ts s s' /\ tr ts (body_toks td v ++ closing (is_blockb td) (c_element c)) /\ node_at td v s s'.
+    exists ts, adv ts s s' /\ tr ts (body_toks td v ++ closing (is_blockb td) (c_element c)) /\ node_at td off v s s' /\
+               lns s s' ts (body_offs td v ++ closing_offs (is_blockb td) v).
   Proof.
-    intros Hok I Hf E L Hg. unfold parse_body in E.
+    intros Hok I Hfo Hf E L Hg. unfold parse_body in E.
     apply bind_clean_inv in E; [|cs|intro; cs|exact L]. destruct E as (inc & s0 & E0 & _ & E & L0).
     unfold get_incfilename in E0. injection E0 as <- <-.
     apply bind_clean_inv in E; [|cs|intro; cs|exact L0]. destruct E as (uid & s1 & E1 & L1 & E & L1').
@@ -1087,13 +1194,14 @@ Section Elements.
     assert (I1 : Inv s1).
     { destruct I as [i1 i2 i3 i4 i5 i6 i7]. constructor; assumption. }
     assert (A01 : adv [] s s1) by (apply adv_same; try reflexivity; [exact I | constructor; reflexivity]).
+    assert (Hfo1 : first_ok s1) by exact (first_ok_adv _ _ _ A01 Hfo).
     apply bind_clean_inv in E; [|cs|intro; cs|exact L1']. destruct E as ([[fields kids] cms] & s2 & E2 & L2 & E & L2').
     (* the value *)
     assert (Hv : exists eo, v = VNode (t_name td) (mkLay (ps_seq s + 1) (c_line c) off eo (if Nat.eqb (c_fileid c) 0 || Nat.leb (ps_nfiles s) (c_fileid c) then None else Some (c_fileid c))) fields kids cms).
     { destruct (bind_ok_inv _ _ _ _ _ E) as (eo & s3 & _ & E3). injection E3 as <- _. exists eo. reflexivity. }
     destruct Hv as (eo & Hv). subst v. cbn [body_good] in Hg.
-    destruct (items_trace (t_items td) _ [] [] [] s1 fields kids cms s2 Hok I1 Hf E2 L2 Hg)
-      as (nf & nk & t1 & Hf' & Hk' & Hc' & A1 & T1).
+    destruct (items_trace (t_items td) _ [] [] [] s1 fields kids cms s2 Hok I1 Hfo1 Hf E2 L2 Hg)
+      as (nf & nk & t1 & Hf' & Hk' & Hc' & A1 & T1 & Ln1).
     cbn [app] in Hf', Hk'. subst fields kids cms.
     assert (I2 : Inv s2) by (eapply adv_inv; eassumption).
     assert (Sq : ps_seq s1 <= ps_seq s').
@@ -1105,11 +1213,13 @@ Section Elements.
                          ret (VNode (t_name td) (mkLay (ps_seq s + 1) (c_line c) off eo
                                 (if Nat.eqb (c_fileid c) 0 || Nat.leb (ps_nfiles s) (c_fileid c) then None else Some (c_fileid c))) fields kids cms))) by sm.
       eapply (M s1 _ s'). unfold bindM. rewrite E2. exact E. }
-    assert (Hnode : node_at td (VNode (t_name td) (mkLay (ps_seq s + 1) (c_line c) off eo
+    assert (Hnode : node_at td off (VNode (t_name td) (mkLay (ps_seq s + 1) (c_line c) off eo
                       (if Nat.eqb (c_fileid c) 0 || Nat.leb (ps_nfiles s) (c_fileid c) then None else Some (c_fileid c))) nf nk []) s s').
     { exists (mkLay (ps_seq s + 1) (c_line c) off eo (if Nat.eqb (c_fileid c) 0 || Nat.leb (ps_nfiles s) (c_fileid c) then None else Some (c_fileid c))), nf, nk.
-      refine (conj eq_refl (conj eq_refl _)). exact Sq. }
-    cbn [body_toks]. unfold is_blockb.
+      refine (conj eq_refl (conj eq_refl (conj _ eq_refl))). exact Sq. }
+    assert (Ln01 : lns s s2 t1 (items_offs S posrs wo (t_items td) nf nk)).
+    { intros Hne. pose proof (Ln1 Hne) as Q. unfold prevl in *. exact Q. }
+    cbn [body_toks body_offs]. unfold is_blockb.
     destruct (bind_ok_inv _ _ _ _ _ E) as (eo' & s3 & E3 & E4). injection E4 as -> <-.
     destruct (t_kind td).
     - (* a block: /end TAG *)
@@ -1119,17 +1229,27 @@ Section Elements.
       apply bind_clean_inv in E6; [|cs|intro; cs|exact L6]. destruct E6 as (eo2 & s5 & E7 & L7 & E8 & L8).
       assert (s5 = s4) by exact (glo_inv s4 eo2 s5 I4 E7). subst s5.
       apply bind_clean_inv in E8; [|cs|intro; cs|exact L8]. destruct E8 as (u & s6 & E9 & L9 & E10 & _).
-      injection E10 as _ <-.
+      injection E10 as -> <-.
       destruct (end_tag_inv (c_element c) s4 u s6 I4 E9 L9) as (tI & rI & EaI & HtI & HxI & AI).
+      (* the offset of /end: behind it stands the tag *)
+      assert (Heo : eo = tk_line tE - prevl s2).
+      { assert (Hne4 : ps_after s4 <> []) by (rewrite EaI; discriminate).
+        pose proof (glo_after [] tE s2 s4 I2 (first_ok_adv _ _ _ A1 Hfo1) AE Hne4) as G2. rewrite E7 in G2. injection G2 as ->. reflexivity. }
       exists (t1 ++ [tE] ++ [tI]). split; [exact (adv_trans _ _ _ _ _ A01 (adv_trans _ _ _ _ _ A1 (adv_trans _ _ _ _ _ AE AI)))|].
-      split; [|exact Hnode]. apply tr_app; [exact T1|]. cbn [closing app].
-      constructor; [split; [exact HtE | exact Logic.I]|]. constructor; [split; [exact HtI | exact HxI] | constructor].
-    - injection E3 as _ <-. exists t1. split; [exact (adv_trans _ _ _ _ _ A01 A1)|]. split; [|exact Hnode].
-      cbn [closing]. rewrite app_nil_r. exact T1.
-    - injection E3 as _ <-. exists t1. split; [exact (adv_trans _ _ _ _ _ A01 A1)|]. split; [|exact Hnode].
-      cbn [closing]. rewrite app_nil_r. exact T1.
-    - injection E3 as _ <-. exists t1. split; [exact (adv_trans _ _ _ _ _ A01 A1)|]. split; [|exact Hnode].
-      cbn [closing]. rewrite app_nil_r. exact T1.
+      split; [|split; [exact Hnode|]].
+      + apply tr_app; [exact T1|]. cbn [closing app].
+        constructor; [split; [exact HtE | exact Logic.I]|]. constructor; [split; [exact HtI | exact HxI] | constructor].
+      + apply (lns_app s s2 s6 t1 ([tE] ++ [tI]) _ _ (adv_trans _ _ _ _ _ A01 A1) (adv_trans _ _ _ _ _ AE AI) Ln01).
+        intros _. cbn [closing_offs layout_of l_eo app lines_as]. split; [exact Heo|]. split; [exact Logic.I | exact Logic.I].
+    - injection E3 as _ <-. exists t1. split; [exact (adv_trans _ _ _ _ _ A01 A1)|]. split; [|split; [exact Hnode|]].
+      + cbn [closing]. rewrite app_nil_r. exact T1.
+      + cbn [closing_offs]. rewrite app_nil_r. exact Ln01.
+    - injection E3 as _ <-. exists t1. split; [exact (adv_trans _ _ _ _ _ A01 A1)|]. split; [|split; [exact Hnode|]].
+      + cbn [closing]. rewrite app_nil_r. exact T1.
+      + cbn [closing_offs]. rewrite app_nil_r. exact Ln01.
+    - injection E3 as _ <-. exists t1. split; [exact (adv_trans _ _ _ _ _ A01 A1)|]. split; [|split; [exact Hnode|]].
+      + cbn [closing]. rewrite app_nil_r. exact T1.
+      + cbn [closing_offs]. rewrite app_nil_r. exact Ln01.
   Qed.
 End Elements.
 
@@ -1167,38 +1287,82 @@ Section Whole.
     destruct ty; try discriminate; cbn [parse_field parse_scalar_field]; mv.
   Qed.
 
+  Definition fields_only (td : tydef) : bool :=
+    forallb (fun it => match it with IField _ ty => simple_ty ty && known_ty S ty | ITagged _ _ _ => false end) (t_items td).
+
+  Lemma fields_only_moves : forall f fi td c off, fields_only td = true -> moves (parse_ty f S fi td c off).
+  Proof.
+    destruct f as [|f]; intros fi td c off H; cbn [parse_ty]; [mv|]. unfold parse_body.
+    apply moves_bind; [mv|intro]. apply moves_bind; [mv|intro].
+    apply moves_bind; [|intro; mv].
+    clear - H. unfold fields_only in H. revert H. generalize (@nil value) (@nil (list value)) (@nil comment).
+    induction (t_items td) as [|it r IH]; intros fields kids cms H; cbn [parse_items]; [mv|].
+    cbn [forallb] in H. apply andb_true_iff in H. destruct H as [H1 H2]. destruct it as [nm ty|]; [|discriminate].
+    apply andb_true_iff in H1. destruct H1 as [Hs _].
+    apply moves_bind; [|intro; apply IH; exact H2].
+    destruct ty; try discriminate; cbn [parse_field parse_scalar_field]; mv.
+  Qed.
+
   Lemma struct_moves : forall f td c off, simple_struct S td = true -> moves (parse_ty f S ifuel td c off).
   Proof.
-    destruct f as [|f]; intros td c off H; cbn [parse_ty]; [mv|]. unfold parse_body.
-    unfold simple_struct in H. repeat (apply andb_true_iff in H; let Y := fresh "Y" in destruct H as [H Y]).
-    apply moves_bind; [mv|intro]. apply moves_bind; [mv|intro]. apply moves_bind; [apply struct_items_moves; exact Y|intro]. mv.
+    intros f td c off H. apply fields_only_moves.
+    unfold simple_struct in H. repeat (apply andb_true_iff in H; let Y := fresh "Y" in destruct H as [H Y]). exact Y.
   Qed.
 
   Definition traced (ts : list token) (ws : list shape) : Prop := Forall2 (reads_as ftab) ts ws.
 
-  Theorem parse_then_write : forall f td c off s v s', c_fileid c = O -> Inv s -> ps_ftab s = ftab ->
+  Theorem parse_then_write : forall f td c off s v s', c_fileid c = O -> Inv s -> first_ok s -> ps_ftab s = ftab ->
     lookup_ty S (t_name td) = Some td -> t_special td = None ->
     parse_ty f S ifuel td c off s = (ROk v, s') -> ps_log s' = ps_log s -> good S posrs f td v ->
     exists ts, adv ts s s' /\ traced ts (wtoks S posrs ftab f v ++ closing (is_blockb td) (c_element c)) /\
-               node_at td v s s'.
+               node_at td off v s s' /\
+               (ps_after s' <> [] -> lines_as (prevl s) ts (woffs S posrs f v ++ closing_offs (is_blockb td) v)).
   Proof.
-    induction f as [|f IH]; intros td c off s v s' Hc I Hf Hl Hsp E L Hg; [discriminate|]. cbn [parse_ty] in E.
+    induction f as [|f IH]; intros td c off s v s' Hc I Hfo Hf Hl Hsp E L Hg; [discriminate|]. cbn [parse_ty] in E.
     assert (Htd : td_ok S td = true).
     { unfold spec_ok in Hspec. rewrite forallb_forall in Hspec. apply Hspec. exact (proj1 (lookup_ty_in _ _ _ Hl)). }
-    destruct (body_trace S posrs ftab ifuel (parse_ty f S ifuel) (wtoks S posrs ftab f) (good S posrs f)
+    destruct (body_trace S posrs ftab ifuel (parse_ty f S ifuel) (wtoks S posrs ftab f) (woffs S posrs f) (good S posrs f)
                 (fun td cc off => csim_parse_ty S ifuel f td cc off) (fun td cc off => smono_parse_ty S ifuel f td cc off)
                 (fun td cc off H => struct_moves f td cc off H)
-                (fun td cc off s v s' H1 H2 H3 H4 H5 H6 H7 H8 => IH td cc off s v s' H1 H2 H3 H4 H5 H6 H7 H8)
-                (fun td v H => good_struct f td v H) c Hc td off s v s' Htd I Hf E L)
-      as (ts & A & T & Hn).
+                (fun td cc off s v s' H1 H2 H3 H4 H5 H6 H7 H8 H9 => IH td cc off s v s' H1 H2 H3 H4 H5 H6 H7 H8 H9)
+                (fun td v H => good_struct f td v H) c Hc td off s v s' Htd I Hfo Hf E L)
+      as (ts & A & T & Hn & Ln).
     - destruct v as [| |ty lay fields kids cms|]; try exact Logic.I. exact Hg.
-    - exists ts. split; [exact A|]. split; [|exact Hn].
-      destruct Hn as (lay & fields & kids & -> & _). cbn [wtoks body_toks] in *. rewrite Hl, Hsp. exact T.
+    - exists ts. split; [exact A|]. split; [|split; [exact Hn|]].
+      + destruct Hn as (lay & fields & kids & -> & _). cbn [wtoks body_toks] in *. rewrite Hl, Hsp. exact T.
+      + destruct Hn as (lay & fields & kids & -> & _). cbn [woffs body_offs] in *. rewrite Hl, Hsp. exact Ln.
   Qed.
 End Whole.
 Print Assumptions parse_then_write.
 
 (* ---------- an executable sufficient condition for [good] ---------- *)
+Fixpoint sortedb {A} (le : A -> A -> bool) (l : list A) : bool :=
+  match l with
+  | a :: r => match r with b :: _ => le a b && sortedb le r | [] => true end
+  | [] => true
+  end.
+Lemma sortedb_sorted {A} (le : A -> A -> bool) l : sortedb le l = true -> Sorted (leP le) l.
+Proof.
+  induction l as [|a r IH]; intros H; [constructor|]. cbn [sortedb] in H. destruct r as [|b r'].
+  - constructor; constructor.
+  - apply andb_true_iff in H. destruct H as [H1 H2]. constructor; [apply IH; exact H2 | constructor; exact H1].
+Qed.
+
+Lemma replace_restricted_self {P} (L : list (ginfo P)) :
+  replace_restricted L (filter (fun g => match g_pos g with Some _ => true | None => false end) L) = L.
+Proof.
+  induction L as [|g r IH]; [reflexivity|]. cbn [filter replace_restricted]. destruct (g_pos g); cbn [replace_restricted]; rewrite IH; reflexivity.
+Qed.
+
+Lemma group_order_sorted (G : list (ginfo entry)) :
+  sortedb pos_leb (filter restricted (ssort sort_leb G)) = true -> group_order G = ssort sort_leb G.
+Proof.
+  intros H. unfold group_order, apply_position_restrictions.
+  change (fun g : ginfo entry => match g_pos g with Some _ => true | None => false end) with restricted.
+  destruct (Nat.ltb 1 (length (filter restricted (ssort sort_leb G)))); [|reflexivity].
+  rewrite (ssort_sorted_id pos_leb _ (sortedb_sorted _ _ H)). apply replace_restricted_self.
+Qed.
+
 Section Goodb.
   Variable S : spec.
   Variable posrs : list (string * posr).
@@ -1214,9 +1378,10 @@ Section Goodb.
       | ti :: r, ks :: m => forallb (kid_okb ti) ks && group_kids_okb r m
       | _, _ => true
       end.
+    (* the position-restricted children, in the order of the writer's sort, have positions that do not decrease *)
     Definition group_goodb (titems : list titem) (mine : list (list value)) : bool :=
       Nat.leb (length mine) (length titems) && group_kids_okb titems mine &&
-      Nat.leb (length (filter restricted (kid_entries S posrs titems mine))) 1.
+      sortedb pos_leb (filter restricted (ssort sort_leb (kid_entries S posrs titems mine))).
     Fixpoint items_goodb (its : list item) (kids : list (list value)) : bool :=
       match its with
       | [] => true
@@ -1250,9 +1415,9 @@ Section Goodb.
     - apply IH. exact H.
     - apply andb_true_iff in H. destruct H as [Hg Hr]. split; [|apply IH; exact Hr].
       unfold group_goodb in Hg. apply andb_true_iff in Hg. destruct Hg as [Hg H3]. apply andb_true_iff in Hg. destruct Hg as [H1 H2].
-      apply Nat.leb_le in H1, H3. split.
+      apply Nat.leb_le in H1. split.
       + exact (group_kids_ok_sound plb pl Hpl titems _ H1 H2).
-      + apply group_order_plain. exact H3.
+      + apply group_order_sorted. exact H3.
   Qed.
 
   Theorem goodb_sound : forall f td v, goodb f td v = true -> good S posrs f td v.
@@ -1312,7 +1477,7 @@ Section FromText.
     intros Et Hok Hne Hl Hsp E L Hg.
     destruct (tokenize_lines_monotone 0 _ toks Et) as [Hmono _].
     assert (I : Inv (init_state toks false 1 ftab)) by (apply init_inv; assumption).
-    destruct (parse_then_write S posrs ftab ifuel Hspec f td (mkCtx tag O line) off _ v s' eq_refl I eq_refl Hl Hsp E L
+    destruct (parse_then_write S posrs ftab ifuel Hspec f td (mkCtx tag O line) off _ v s' eq_refl I (first_ok_init _ _ _ _) eq_refl Hl Hsp E L
                 (goodb_sound S posrs f td v Hg)) as (ts & A & T & _).
     exists ts. split; [|exact T]. pose proof (adv_after _ _ _ A) as Q. exact Q.
   Qed.
